@@ -69,6 +69,7 @@ class Result:
         self.samples = []
         self.exhaustive = None
         self.fails = []   # (case_text, message, worker)
+        self.survey = {}
         self.notes = []
 
     def merge(self, js, w):
@@ -83,6 +84,9 @@ class Result:
         for k, v in js.get('extra', {}).items():
             self.extra[k] = self.extra.get(k, 0) + v
         self.samples += js.get('samples', [])
+        for k, v in js.get('survey', {}).items():
+            e = self.survey.setdefault(k, [0, v[1]])
+            e[0] += v[0]
         ex = bool(js.get('exhaustive'))
         self.exhaustive = ex if self.exhaustive is None else (self.exhaustive and ex)
         if js.get('fail'):
@@ -213,6 +217,9 @@ def check_native(prop, spec, tier, seed, replay=None):
         plan = dict(plan)
         plan['opts'] = dict(plan.get('opts', {}))
         plan['opts'].update(spec.get('_rt', {}))
+        for kv in os.environ.get('VERIF_OPTS', '').split(','):
+            if '=' in kv:
+                plan['opts'][kv.split('=')[0]] = kv.split('=')[1]
         run_workers(exe, prop, tier, int(seed) + 7919 * i, plan, exclude, res, label=plan.get('label', '') + ' ')
 
     # ---- 3. confirm failures through the plain replay path
@@ -249,6 +256,10 @@ def check_native(prop, spec, tier, seed, replay=None):
     }
     if res.extra:
         cov['extra'] = res.extra
+    if res.survey:
+        with open(os.path.join(rundir(prop), 'survey.json'), 'w') as f:
+            json.dump(dict(sorted(res.survey.items(), key=lambda kv: -kv[1][0])), f, indent=1)
+        print('survey: %d failing signatures written to %s' % (len(res.survey), os.path.join(rundir(prop), 'survey.json')))
     if res.exhaustive:
         cov['exhaustive'] = True
     write_evidence(prop, tier, seed, spec['level'], cov, spec['assumptions'], wall, len(violations))
